@@ -172,7 +172,7 @@ func (x *Exec) stdlibCall(st *State, fr *Frame, v *ssa.Call, f *ssa.Function, ar
 		// assumption: allocations of at most allocBound bytes succeed (//@ allocbound N).
 		sl0 := Slen(x.scalar(args[0]))
 		pre("strings.Repeat.result-size", Or(Eq(sl0, IntC(0)), Le(n, TDiv(IntC(x.allocBound()), sl0))), n, sl0)
-		r := UF("strings.Repeat", SStr, x.scalar(args[0]), n)
+		r := UF("lib!strings.Repeat", SStr, x.scalar(args[0]), n)
 		st.assumeDef(Eq(Slen(r), Mul(Slen(x.scalar(args[0])), n)))
 		setRes(r)
 		return
